@@ -9,7 +9,9 @@ pub use crate::rtte::RttEstimator;
 pub use crate::seq_nr::SeqNr;
 pub use crate::stream_rx::{AssemblerAddRemoveResult, OutOfOrderQueue, UserRx, VerifRxSnapshot};
 pub use crate::stream_tx::UserTx;
-pub use crate::stream_tx_segments::{OnAckResult, Pipe, PopExpiredProbe, Segments};
+pub use crate::stream_tx_segments::{
+    OnAckResult, Pipe, PopExpiredProbe, Segments, VerifSegment, VerifSegmentsSnapshot,
+};
 pub use crate::traits::UtpEnvironment;
 pub use crate::utils::{prepare_2_ioslices, seq_nr_offset};
 
